@@ -370,7 +370,7 @@ def run(ck: common.Check):
                "attrs/siblings, var-length sections out of order with gaps; string encoding and offset-table dtype counted "
                "separately), read by read_to_memory with validation on and off. non-trivial = at least one node or property")
     base = [c for c in C01.rotate_layouts(C01.exhaustive(ck.quick)) + C01.special_cases() if C01.wf_case(c)]
-    nrand = 500 if ck.quick else 8000
+    nrand = 500 if ck.quick else 2000
     base += [c for c in (C01.random_case(ck.rng, ck.quick) for _ in range(nrand)) if C01.wf_case(c)]
     corpus = list(R.corpus(PROP))
 
@@ -382,13 +382,13 @@ def run(ck: common.Check):
             continue
         for fmt in (2, 3):
             d1.append({**c, "fmt": fmt, "store": "mem"})
-        if i % (25 if ck.quick else 5) == 0:
+        if i % (25 if ck.quick else 10) == 0:
             d1.append({**c, "fmt": 2 + i % 2, "store": ["local", "path", "str"][i % 3]})
     d1 = [c for c in corpus if c.get("direction") == 1] + d1
     obs1 = common.pmap(dir1_run, d1, chunksize=8)
 
     # ---------------- direction 2
-    k = 2 if ck.quick else 8
+    k = 2 if ck.quick else 3
     d2 = [c for c in corpus if c.get("direction") == 2]
     for i, c in enumerate(base):
         if ck.quick and c["origin"].startswith("exh") and i % 3:
